@@ -15,6 +15,8 @@
    (it may add any other entry).  [i_hash = -1] stands for unhashable data. *)
 From Coq Require Import List ZArith Bool.
 From NT Require Import Sx Rose DictList DictListProofs CaseC14 CaseC14Facts.
+From NT Require MiscMapper MiscMapperProofs.   (* part MAPPER, imported at the end of this file *)
+From NT Require MiscRepr MiscCommon MiscCommonProofs.   (* part COMMONMISC, imported at the end of this file *)
 From NTGen Require Import Generated.
 Import ListNotations.
 
@@ -282,6 +284,108 @@ Proof. reflexivity. Qed.
 Print Assumptions C14_generated_facts_present.
 
 (* ====================================================================================== *)
+(* ---- JSON transport, strings without a data premise, C03 bridge (audit F1-F3) ---- *)
+From NT Require DictJson CaseC14Json.
+From NT Require WF.
+Import DictJson CaseC14Json.
+
+(* "also after a JSON dump/load of the structure".  [json_rt] is what
+   json.loads(json.dumps v) is on the value kinds of the AST: a tuple comes back
+   as a list, everything else unchanged (the correspondence applies it between
+   to_dict_list and from_dict, and the harness compares the real json round trip
+   with it on every case).  The structure to_dict_list builds is a fixed point of
+   it for every serialisation mapper that writes JSON-able values ([sm_json]:
+   tuple-free in, tuple-free out), in particular without a mapper *)
+Theorem C14_json_transport : forall sm : smapper, sm_json sm ->
+  forall f : forest, map json_rt (to_dict_list sm f) = to_dict_list sm f.
+Proof. exact to_dict_list_json. Qed.
+Print Assumptions C14_json_transport.
+
+Theorem C14_json_transport_plain : forall f : forest, map json_rt (to_dict_list sm_none f) = to_dict_list sm_none f.
+Proof. exact (to_dict_list_json sm_none sm_none_json). Qed.
+Print Assumptions C14_json_transport_plain.
+
+(* the transport itself: identity exactly on tuple-free values, never yields a tuple, idempotent *)
+Theorem C14_json_rt_spec : forall v : jv,
+  (tuple_free v = true -> json_rt v = v) /\ tuple_free (json_rt v) = true /\ json_rt (json_rt v) = json_rt v.
+Proof. exact (fun v => conj (json_rt_fixed v) (conj (json_rt_tuple_free v) (json_rt_idem v))). Qed.
+Print Assumptions C14_json_rt_spec.
+
+(* the round trip THROUGH the transport *)
+Theorem C14_roundtrip_after_json : forall (sm : smapper) (dd : dmapper) (next : nat) (f : forest),
+  sm_json sm -> sm_kids sm -> sibuniq_f f -> Forall (allinfo (inverse_on sm dd)) f ->
+  exists f', tree_from_dict dd next (map json_rt (to_dict_list sm f)) = inl f' /\
+             Forall2 iso f f' /\ ids f' = seq (S next) (size_f f).
+Proof. exact roundtrip_after_json. Qed.
+Print Assumptions C14_roundtrip_after_json.
+
+(* string data, no mapper, through JSON, and NO premise about the rebuilt data:
+   Python's str equality and hash are functions of the characters ([eqc_of],
+   [hash_of], arbitrary); the payloads of the tree are str payloads
+   ([str_payload]: is a str, hash / ==-class are those of its characters);
+   [raw_str] is Python's reading of a JSON string.  Then the data is reproduced
+   ([node_agrees] at every pre-order position: same ==-class, hash, str-ness,
+   characters, data_id), not assumed *)
+Theorem C14_roundtrip_strings_no_premise : forall (hash_of eqc_of : text -> Z) (next : nat) (f : forest),
+  sibuniq_f f -> (forall t, In t (pre_f f) -> str_payload hash_of eqc_of (rinfo t)) ->
+  exists f', tree_from_dict (dd_raw (raw_str hash_of eqc_of)) next (map json_rt (to_dict_list sm_none f)) = inl f' /\
+             Forall2 iso f f' /\ ids f' = seq (S next) (size_f f) /\
+             Forall2 node_agrees (pre_f f) (pre_f f').
+Proof. exact roundtrip_strings_wf. Qed.
+Print Assumptions C14_roundtrip_strings_no_premise.
+
+Example C14_ex_strings_no_premise_hyps :
+  sibuniq_f ex_f /\ (forall t, In t (pre_f ex_f) -> str_payload ex_hash ex_eqc (rinfo t)).
+Proof. exact (conj ex_sibuniq ex_str_payloads). Qed.
+
+(* outside the domain, named: a tuple-valued data_id (possible through a
+   calc_data_id hook; DataIdType is str|int) is not JSON-stable – what comes back
+   holds a list and from_dict refuses it with TypeError; and a mapper that writes
+   a tuple is not [sm_json] and its dump is changed by the transport *)
+Example C14_ex_tuple_data_id :
+  tuple_free ex_tuple_item = false /\
+  json_rt ex_tuple_item = JDict [(k_data, JStr [97%Z]); (k_data_id, JList [JStr [107%Z]; JStr [97%Z]])] /\
+  json_rt ex_tuple_item <> ex_tuple_item /\
+  tree_from_dict (dd_raw ex_raw) 0 [json_rt ex_tuple_item] = inr E_TYPE.
+Proof. exact ex_tuple_id. Qed.
+
+Example C14_ex_tuple_mapper : forall tbl, ~ sm_json (sm_of (SMtuple tbl)).
+Proof. exact sm_tuple_not_json. Qed.
+
+(* the inverse-pair hypothesis asked only for the dicts that occur
+   ([inverse_on_c]: the node's head dict, with or without a "children" entry
+   appended) – weaker than [inverse_on], hence a stronger round-trip theorem; the
+   table-driven decoders the correspondence runs satisfy it (Example below),
+   which they cannot do for [inverse_on] (arbitrary association lists) *)
+Theorem C14_roundtrip_occurring_dicts : forall (sm : smapper) (dd : dmapper) (next : nat) (f : forest),
+  sm_json sm -> sm_kids sm -> sibuniq_f f -> Forall (allinfo (inverse_on_c sm dd)) f ->
+  exists f', tree_from_dict dd next (map json_rt (to_dict_list sm f)) = inl f' /\
+             Forall2 iso f f' /\ ids f' = seq (S next) (size_f f).
+Proof. exact roundtrip_c. Qed.
+Print Assumptions C14_roundtrip_occurring_dicts.
+
+Theorem C14_inverse_on_implies_occurring : forall sm dd i, inverse_on sm dd i -> inverse_on_c sm dd i.
+Proof. exact inverse_on_weaken. Qed.
+Print Assumptions C14_inverse_on_implies_occurring.
+
+(* the decoder [run14] executes for the mapper kind "extra" (CaseC14.dd_for /
+   dd_head over its table), on the 4-node example tree with a clone and an
+   explicit id: hypotheses hold, so the theorem covers that correspondence run *)
+Example C14_ex_table_decoder :
+  sm_json ex_sm_extra /\ sm_kids ex_sm_extra /\
+  Forall (allinfo (inverse_on_c ex_sm_extra (dd_for (SMextra ex_tbl) ex_dt))) ex_g /\
+  exists f', tree_from_dict (dd_for (SMextra ex_tbl) ex_dt) 4 (map json_rt (to_dict_list ex_sm_extra ex_g)) = inl f' /\
+             Forall2 iso ex_g f'.
+Proof.
+  exact (conj ex_sm_extra_json (conj ex_sm_extra_kids (conj ex_table_decoder_inverse ex_table_decoder_roundtrip))).
+Qed.
+
+(* the hypothesis of the round-trip theorems is the C03 invariant predicate of
+   the mutation machine (preserved by every operation: C01/C03) *)
+Theorem C14_sibuniq_is_C03_invariant : forall f : forest, sibuniq_f f <-> WF.SU f.
+Proof. exact sibuniq_f_SU. Qed.
+Print Assumptions C14_sibuniq_is_C03_invariant.
+
 (* Glue C14 <-> C04/C01 (theories/Glue/GlueFromDict.v).  from_dict is modelled twice: here
    (Forest/DictList.v: JSON items read through a deserialisation step [dd], identities assigned by
    [renum_f] afterwards) and in the mutation machine (Mut/Machine.v [op_from_dict] / [OTreeFromDict]:
@@ -341,3 +445,147 @@ Proof.
   - repeat (first [apply Forall2_nil | apply Forall2_cons | eapply GlueFromDict.enc_item; [vm_compute; reflexivity|repeat split|vm_compute; reflexivity|vm_compute; reflexivity|vm_compute; reflexivity|]]).
   - repeat (first [apply Forall2_nil | apply Forall2_cons | eapply GlueFromDict.enc_item; [vm_compute; reflexivity|repeat split|vm_compute; reflexivity|vm_compute; reflexivity|vm_compute; reflexivity|]]).
 Qed.
+
+(* ==== PART MAPPER: common.call_mapper (model theories/Forest/MiscMapper.v, correspondence Cases/CaseMiscMapper.v,
+   harness parts_misc.MAPPER).  A callback is a script [CB body ret]: mutations of the dict it is handed, then how it
+   ends ([RNone] returns None, [RSame] returns the dict itself, [RVal v] another object of value v, [RRaise c]).
+   [OData d] = the caller holds the data dict object itself (content d), [OVal v d] = another object of value v. ==== *)
+Import MiscMapper MiscMapperProofs.
+
+(* no mapper: the dict itself, untouched *)
+Theorem C14_mapper_absent : forall d, call_mapper None d = OData d.
+Proof. exact cm_no_mapper. Qed.
+Print Assumptions C14_mapper_absent.
+
+(* ANY result other than None is used as it is – whatever its truth value – and the dict keeps the callback's mutations *)
+Theorem C14_mapper_value_used_as_is : forall body v d,
+  v <> PNone -> call_mapper (Some (CB body (RVal v))) d = OVal v (apply_mops d body).
+Proof. exact cm_value_used_as_is. Qed.
+Print Assumptions C14_mapper_value_used_as_is.
+
+(* in particular the falsy ones: 0, "", (), False, [], {}, 0.0, ... *)
+Theorem C14_mapper_falsy_value_used_as_is : forall body v d,
+  truthy v = false -> v <> PNone -> call_mapper (Some (CB body (RVal v))) d = OVal v (apply_mops d body).
+Proof. exact cm_falsy_used_as_is. Qed.
+Print Assumptions C14_mapper_falsy_value_used_as_is.
+
+(* None selects the dict object, as the callback left it *)
+Theorem C14_mapper_none_selects_mutated_dict : forall body d,
+  call_mapper (Some (CB body RNone)) d = OData (apply_mops d body).
+Proof. exact cm_none_selects_mutated. Qed.
+Print Assumptions C14_mapper_none_selects_mutated_dict.
+
+(* the whole rule as a function of how the callback ends (an exception propagates, the mutations done so far stay) *)
+Theorem C14_mapper_rule : forall body r d,
+  call_mapper (Some (CB body r)) d = expected r (apply_mops d body).
+Proof. exact cm_spec. Qed.
+Print Assumptions C14_mapper_rule.
+
+(* the caller holds the data dict itself exactly when there is no mapper, or it returned None, or it returned that dict *)
+Theorem C14_mapper_is_data_iff : forall fn d,
+  (exists d', call_mapper fn d = OData d') <->
+  (fn = None \/ exists body r, fn = Some (CB body r) /\ returns_nothing r).
+Proof. exact cm_is_data_iff. Qed.
+Print Assumptions C14_mapper_is_data_iff.
+
+(* the rule `fn(node, data) or data` (seeded change C05-3) differs from call_mapper exactly on falsy results that are not None *)
+Theorem C14_mapper_or_rule_differs_iff : forall fn d,
+  call_mapper_or fn d <> call_mapper fn d <->
+  exists body v, fn = Some (CB body (RVal v)) /\ truthy v = false /\ v <> PNone.
+Proof. exact cm_or_differs_iff. Qed.
+Print Assumptions C14_mapper_or_rule_differs_iff.
+
+(* a write of the callback is seen by every later reader of the dict, however the callback ends *)
+Theorem C14_mapper_write_visible : forall body k v r d,
+  d_get (after (call_mapper (Some (CB (body ++ [MSet k v]) r)) d)) k = Some v.
+Proof. exact cm_last_write_visible. Qed.
+Print Assumptions C14_mapper_write_visible.
+
+(* the two deserialising call sites: from_dict reads item["data_id"] AFTER the mapper ("mapper may add item['data_id']"),
+   load reads it BEFORE; the value is used by the same rule at both *)
+Theorem C14_mapper_from_dict_sees_mapper_id : forall body v r item,
+  snd (site_from_dict (Some (CB (body ++ [MSet k_data_id v]) r)) item) = Some v.
+Proof. exact site_from_dict_sees_mapper_id. Qed.
+Print Assumptions C14_mapper_from_dict_sees_mapper_id.
+
+Theorem C14_mapper_load_reads_id_first : forall fn fn' data,
+  snd (site_from_list fn data) = snd (site_from_list fn' data) /\ snd (site_from_list fn data) = d_get data k_data_id.
+Proof. exact site_from_list_ignores_mapper_id. Qed.
+Print Assumptions C14_mapper_load_reads_id_first.
+
+(* non-vacuity: seven falsy non-None values are each handed back as they are (and the `or` rule loses every one of them);
+   a None-returning callback's set / rename / set-to-None are all in the dict the caller gets *)
+Example C14_mapper_ex_falsy :
+  forallb (fun v => negb (truthy v) && negb (is_none v)) falsy_values = true /\
+  map (fun v => call_mapper (Some (CB [MSet [107%Z] (PInt 1)] (RVal v))) [([97%Z], PInt 5)]) falsy_values =
+  map (fun v => OVal v [([97%Z], PInt 5); ([107%Z], PInt 1)]) falsy_values /\
+  map (fun v => call_mapper_or (Some (CB [MSet [107%Z] (PInt 1)] (RVal v))) [([97%Z], PInt 5)]) falsy_values =
+  map (fun _ => OData [([97%Z], PInt 5); ([107%Z], PInt 1)]) falsy_values.
+Proof. exact ex_falsy_all_used. Qed.
+
+Example C14_mapper_ex_none :
+  call_mapper (Some (CB [MSet [97%Z] (PInt 6); MRename [97%Z] [98%Z]; MSet [99%Z] PNone] RNone)) [([97%Z], PInt 5); ([120%Z], PStr [])] =
+  OData [([120%Z], PStr []); ([98%Z], PInt 6); ([99%Z], PNone)].
+Proof. exact ex_none_uses_mutated. Qed.
+
+(* ==== PART COMMONMISC: common.check_python_version / PYTHON_VERSION / tree.MIN_PYTHON_VERSION_INFO and the exception
+   hierarchy (model theories/Forest/MiscCommon.v, correspondence Cases/CaseMiscCommon.v under a patched sys.version_info,
+   harness parts_misc.COMMONMISC).  [cur3] = the three int components of sys.version_info, whose fourth is the str 'final'. ==== *)
+Import MiscRepr MiscCommon MiscCommonProofs.
+
+(* tuple `<` is lexicographic: "less" exactly when a first differing position exists and holds a smaller component *)
+Theorem C14_version_tuple_order : forall a b,
+  cmp_prefix a b = Some true <-> exists p x y a' b', a = p ++ x :: a' /\ b = p ++ y :: b' /\ (x < y)%Z.
+Proof. exact cmp_prefix_lt_iff. Qed.
+Print Assumptions C14_version_tuple_order.
+
+(* True exactly when the running version is not less than the minimum; a DeprecationWarning exactly when the answer is False *)
+Theorem C14_version_check_spec : forall real3 cur3 minv,
+  match check_python_version real3 cur3 minv with
+  | inl e => version_lt cur3 minv = inl e
+  | inr (r, w) => version_lt cur3 minv = inr (negb r) /\ (w = None <-> r = true)
+  end.
+Proof. exact check_python_version_spec. Qed.
+Print Assumptions C14_version_check_spec.
+
+(* a minimum of at most three components never raises; (a longer one reaches 'final' and raises TypeError: see the Example) *)
+Theorem C14_version_check_total : forall cur3 minv, length cur3 = 3%nat -> (length minv <= 3)%nat -> exists r, version_lt cur3 minv = inr r.
+Proof. exact check_python_version_total. Qed.
+Print Assumptions C14_version_check_total.
+
+(* an interpreter at or above [maj; mnr] is accepted silently, one below is answered False with a warning naming both versions *)
+Theorem C14_version_supported : forall real3 maj mnr c2 c3,
+  (mnr <= c2)%Z -> check_python_version real3 [maj; c2; c3] [maj; mnr] = inr (true, None).
+Proof. exact check_python_version_supported. Qed.
+Print Assumptions C14_version_supported.
+
+Theorem C14_version_deprecated : forall real3 maj mnr c2 c3,
+  (c2 < mnr)%Z ->
+  check_python_version real3 [maj; c2; c3] [maj; mnr] =
+  inr (false, Some (t_warn1 ++ (repr_int maj ++ [46%Z] ++ repr_int mnr) ++ t_warn2 ++ python_version real3 ++ [41%Z])).
+Proof. exact check_python_version_deprecated. Qed.
+Print Assumptions C14_version_deprecated.
+
+(* tie to the source (gen_facts section MISCCOMMON): the comparison is `<`, the branches return False / True, the message
+   shows three components, tree.py checks MIN_PYTHON_VERSION_INFO = (3, 8) at import; both library errors are TreeErrors,
+   TreeError is a RuntimeError (so `except RuntimeError` sees them), neither is the other, none is a ValueError *)
+Theorem C14_common_source_facts :
+  GEN_MISCCOMMON_OK = true /\ VERSION_CHECK_OP = [60%Z] /\ VERSION_CHECK_RETURNS = [false; true] /\ VERSION_CHECK_SLICE = 3%Z /\
+  VERSION_CHECKED_AT_IMPORT = true /\ MIN_PYTHON_VERSION_INFO = [3; 8]%Z /\
+  let U := [85; 110; 105; 113; 117; 101; 67; 111; 110; 115; 116; 114; 97; 105; 110; 116; 69; 114; 114; 111; 114]%Z in
+  let Am := [65; 109; 98; 105; 103; 117; 111; 117; 115; 77; 97; 116; 99; 104; 69; 114; 114; 111; 114]%Z in
+  let Te := [84; 114; 101; 101; 69; 114; 114; 111; 114]%Z in
+  let Re := [82; 117; 110; 116; 105; 109; 101; 69; 114; 114; 111; 114]%Z in
+  let Ve := [86; 97; 108; 117; 101; 69; 114; 114; 111; 114]%Z in
+  map (fun c => map (is_subclass 4 ERROR_BASES c) [Te; Re; U; Am; Ve]) [U; Am; Te] =
+  [[true; true; true; false; false]; [true; true; false; true; false]; [true; true; false; false; false]].
+Proof. vm_compute. repeat split. Qed.
+Print Assumptions C14_common_source_facts.
+
+(* non-vacuity: on 3.12.1 – (3,8) accepted; (3,12,2) deprecated with the message; (3,12,1,0) reaches 'final': TypeError *)
+Example C14_version_ex :
+  map (check_python_version [3; 12; 1] [3; 12; 1])%Z [[3; 8]; [3; 12; 2]; [3; 12; 1; 0]]%Z =
+  [inr (true, None);
+   inr (false, Some (t_warn1 ++ [51; 46; 49; 50; 46; 50]%Z ++ t_warn2 ++ [51; 46; 49; 50; 46; 49; 41]%Z));
+   inl E_TYPE].
+Proof. vm_compute. reflexivity. Qed.
